@@ -306,11 +306,13 @@ def corpus():
     return out
 
 
-def gen_scenario(rng, idx):
-    """random layered dependency graph with release histories and an operation history"""
+def gen_scenario(rng, idx, matrix=None):
+    """random layered dependency graph with release histories and an operation history.
+    matrix[(req, version)] -> bool (what the real semver crate says), used to make most
+    requirements satisfiable by the target project's releases."""
     nrepo = rng.choice([2, 3, 3, 4, 5])
     repos = {}
-    projects = []           # (repo, project)
+    projects = []           # (repo, project, level)
     for i in range(nrepo):
         rn = "r%d" % i
         if rng.random() < 0.15:
@@ -321,12 +323,27 @@ def gen_scenario(rng, idx):
             projects.append((rn, pn, i))
     forms = {rn: rng.choice(["file", "file", "file", "abs", "rel"]) for rn in repos}
     locals_ = ["loc%d" % i for i in range(rng.choice([0, 0, 1, 2]))]
-    propnames = ["W", "E"]
     proj_props = {}
     for (rn, pn, i) in projects:
         proj_props[(rn, pn)] = ({"W": rng.choice([1, 8, -3]), "E": rng.random() < 0.5} if rng.random() < 0.3 else {})
     local_props = {l: ({"W": 4} if rng.random() < 0.3 else {}) for l in locals_}
     tags = set()
+    # release histories first, so that requirements can be chosen against them
+    hist = {}
+    for (rn, pn, i) in projects:
+        fam = rng.choice([None, None, "1.", "0.", "2."])
+        pool = [v for v in VERSIONS if fam is None or v.startswith(fam)] or VERSIONS
+        hist[(rn, pn)] = rng.sample(pool, min(len(pool), rng.randint(1, 5)))
+
+    def pick_req(rn, pn):
+        if matrix is None or rng.random() < 0.04:
+            return rng.choice(REQS)
+        ok = [r for r in REQS if any(matrix.get((r, v)) for v in hist[(rn, pn)])]
+        if not ok:
+            return rng.choice(REQS)
+        # prefer requirements that do not match everything
+        narrow = [r for r in ok if not all(matrix.get((r, v)) for v in hist[(rn, pn)])]
+        return rng.choice(narrow if narrow and rng.random() < 0.6 else ok)
 
     def mk_decl(level, used_names):
         # a dependency onto a project of a later repository (acyclic) — rarely onto any (cycles)
@@ -345,7 +362,7 @@ def gen_scenario(rng, idx):
         if name in used_names:
             return None
         form = forms[rn] if rng.random() < 0.93 else rng.choice(["file", "abs", "rel"])
-        d = g(name, rn, rng.choice(REQS), project=pn, form=form, explicit=explicit)
+        d = g(name, rn, pick_req(rn, pn), project=pn, form=form, explicit=explicit)
         d["explicit"] = explicit or name != pn
         pp = proj_props[(rn, pn)]
         if pp and rng.random() < 0.4:
@@ -364,31 +381,29 @@ def gen_scenario(rng, idx):
         return ds
 
     events = []
-    # release histories
-    hist = {}
     for (rn, pn, i) in projects:
-        vs = rng.sample(VERSIONS, rng.randint(1, 5))
         decls = mk_decls(i, 2)
-        for v in vs:
+        for v in hist[(rn, pn)]:
             if rng.random() < 0.3:
                 decls = mk_decls(i, 2)
             events.append(rel(rn, v, decls, project=pn, props=proj_props[(rn, pn)], front=rng.random() < 0.2))
-        hist[(rn, pn)] = vs
     rng.shuffle(events)
     for l in locals_:
         ds = mk_decls(-1, 2)
-        others = [x for x in locals_ if x != l]
+        others = [x for x in locals_ if x > l]
         if others and rng.random() < 0.5 and all(d["name"] != others[0] for d in ds):
             ds.append(pth(others[0], others[0]))
-        # a cycle between local projects is avoided: only loc_i -> loc_j for j > i
-        ds = [d for d in ds if d["kind"] != "path" or d["local"] > l]
         events.append(local(l, ds, local_props[l]))
 
     def mk_root():
         ds, used = [], set()
+        seen_prj = set()
         for _ in range(rng.randint(1, 4)):
             d = mk_decl(-1, used)
+            if d and (d["repo"], d["project"]) in seen_prj and rng.random() < 0.85:
+                d = None      # the same project twice at the root mostly ends in a uuid conflict: keep it rare
             if d:
+                seen_prj.add((d["repo"], d["project"]))
                 if locals_ and rng.random() < 0.08:
                     d["override"] = rng.choice(locals_)
                     tags.add("override")
@@ -403,7 +418,7 @@ def gen_scenario(rng, idx):
                     ds.append(pth(nm, l, absolute=rng.random() < 0.2,
                                   props=({"W": 9} if lp and rng.random() < 0.4 else {})))
                     tags.add("path")
-        if rng.random() < 0.04:
+        if rng.random() < 0.03:
             ds.append({"name": "bad", "kind": "invalid", "props": {}})
         return ds
 
@@ -431,7 +446,7 @@ def gen_scenario(rng, idx):
                 rd = [dict(d) for d in rd]
                 k = rng.randrange(len(rd))
                 if rd[k]["kind"] == "git":
-                    rd[k]["req"] = rng.choice(REQS)
+                    rd[k]["req"] = pick_req(rd[k]["repo"], rd[k]["project"])
                 extra = mk_decl(-1, set(d["name"] for d in rd))
                 if extra:
                     rd.append(extra)
@@ -443,16 +458,19 @@ def gen_scenario(rng, idx):
             rn, pn, i = rng.choice(projects)
             if len(hist[(rn, pn)]) > 1:
                 v = rng.choice(hist[(rn, pn)])
+                hist[(rn, pn)].remove(v)
                 events.append({"ev": "yank", "repo": rn, "project": pn, "version": v})
                 tags.add("yank")
         k = rng.random()
-        if k < 0.45:
+        if k < 0.25:
             events += [op("update"), op("update")]
-        elif k < 0.6:
+        elif k < 0.4:
             events += [op("update", True), op("update")]
             tags.add("force")
-        elif k < 0.85:
+        elif k < 0.7:
             events += [op("flow"), op("flow")]
+        elif k < 0.85:
+            events += [op("new"), op("update"), op("update")]
         else:
             events += [op("save"), op("load"), op("update"), op("update")]
         if rng.random() < 0.3:
@@ -463,7 +481,7 @@ def gen_scenario(rng, idx):
         events += [op("save"), op("load"), op("update")]
     backend = rng.choice(["command", "command", "gitoxide", "auto"])
     sc = mk("gen%d" % idx, repos, events, backend)
-    sc["shape"] = sorted(tags)
+    sc["shape"] = sorted(tags) or ["plain"]
     return sc
 
 
@@ -619,8 +637,10 @@ def gen_project(rng, idx, force=None):
         layout["dep1/Veryl.toml"] = '[project]\nname = "dep1"\nversion = "0.1.0"\n[build]\nsources = ["src"]\n'
     layout["prj/Veryl.toml"] = toml
     for (prj, rel), ids in files.items():
-        order = list(ids)
-        rng.shuffle(order)
+        # a symbol referring to a symbol of the SAME file comes after it ("referred before it is defined")
+        order = sorted(ids)
+        if not any(any(syms[r]["file"] == syms[i]["file"] for r in syms[i]["refs"]) for i in ids):
+            rng.shuffle(order)
         text = "\n".join(sym_text(syms[i], syms, "d1") for i in order) + "\n"
         layout[("prj/" if prj == "main" else "dep1/") + rel] = text
     if examples:
